@@ -329,6 +329,52 @@ def foreign_result_probes(ctx):
             ctx.fail('a chain returned a value that is not what the task computes from its current configuration (stale or foreign result)',
                      case, {'returned': got, 'files': names})
     db.cleanup_module()
+    # (vii) inputs read BY INDEX inside run (the order of the declaration): an absent optional input declared first keeps its place
+    from taskchain.parameter import InputTaskParameter
+
+    class First(Task):
+        class Meta:
+            name = 'first'
+
+        def run(self) -> int:
+            return 11
+
+    class Second(Task):
+        class Meta:
+            name = 'second'
+
+        def run(self) -> int:
+            return 22
+
+    class ByIndex(Task):
+        class Meta:
+            name = 'byindex'
+            input_tasks = [First, Second]
+            parameters = [InputTaskParameter('absent_optional', default='dflt')]
+
+        def run(self) -> list:
+            return [self.input_tasks[i].value if hasattr(self.input_tasks[i], 'value') else self.input_tasks[i] for i in range(3)]
+
+    class ByIndexOptFirst(Task):
+        class Meta:
+            name = 'byindex2'
+            input_tasks = ['absent_required_not']
+            parameters = []
+
+        def run(self) -> list:
+            return []
+    case = {'probe': 'inputs read by index, an absent optional input among them'}
+    ctx.case(case, nontrivial=True); ctx.count('foreign-result-probe:inputs-by-index')
+    try:
+        ch = Config(root / 'fr' / 'byindex', name='c', data={'tasks': [First, Second, ByIndex]}).chain()
+        t = ch.tasks['byindex']
+        by_name = [t.input_tasks[n].value if hasattr(t.input_tasks[n], 'value') else t.input_tasks[n] for n in t.input_tasks]
+        got = t.value
+        if got != by_name:
+            ctx.fail('a chain returned a value that is not what the task computes from its current configuration (stale or foreign result)',
+                     case, {'inputs_by_index': got, 'inputs_in_declared_order': by_name})
+    except Exception as e:      # noqa
+        ctx.fail('a task that reads its inputs by index cannot be computed', case, f'{type(e).__name__}: {e}'[:200])
     # (v) a typed parameter whose value arrives as text (an override assembled from command-line arguments): refused at construction —
     #     never a chain that computes from, or serves the result stored for, ANOTHER value (`'false'` is not False, and certainly not True)
     def typed(dtype):
